@@ -200,7 +200,7 @@ def run(ctx):
     # events, properties, specifications
     pool = []
     for n in range(ctx.share(B['props'])):
-        pg = gen.PropGen(rng, maxdepth=rng.randrange(1, 3), max_width=rng.choice((1, 2, 3, 5)), kw_names=0.05)
+        pg = gen.PropGen(rng, maxdepth=rng.randrange(1, 3), max_width=rng.choice((1, 2, 3, 5)), kw_names=0.05, const_preds=0.05)
         p, _, _ = pg.make(n=n)
         text = A.render_prop(p)
         o = hplapi.outcome(PP.parse, text)
@@ -257,9 +257,9 @@ def run(ctx):
         judge_iterate(hp, text, feats)
         # disjunction trees of every shape (only the constructors can build left-nested or balanced ones)
         for name, ev in pos.items():
-            if ev[0] != 'disj' or len(ev[1]) < 3:
+            if ev[0] != 'disj':
                 continue
-            for nst in ('left', 'balanced', rng):
+            for nst in (('left', 'balanced', rng, 'derived') if len(ev[1]) >= 3 else ('derived',)):
                 hplapi.NESTING[0] = nst
                 try:
                     ob = hplapi.outcome(hplapi.build_event, ev)
